@@ -76,12 +76,70 @@ def classify_err(msg):
     return 'other'
 
 
-def run_capture(sources, code=False, strip=False):
+def _limits():
+    import resource
+    resource.setrlimit(resource.RLIMIT_AS, (2 << 30, 2 << 30))
+
+
+def run_capture(sources, code=False, strip=False, isolated=()):
+    """`isolated`: indices of cases to run in a process of their own (expected to exhaust resources)."""
+    if isolated:
+        iso = set(isolated)
+        rest_idx = [i for i in range(len(sources)) if i not in iso]
+        rest = run_capture([sources[i] for i in rest_idx], code, strip)
+        res = [None] * len(sources)
+        for i, c in zip(rest_idx, rest):
+            res[i] = c
+        for i in iso:
+            res[i] = run_capture([sources[i]], code, strip)[0]
+        return res
+    return _run_capture(sources, code, strip)
+
+
+def _run_capture(sources, code=False, strip=False):
+    """run the real derive (library entry point) on every source. A case that kills the process
+    (abort, out of memory under a 2 GiB address-space limit, > 120 s) gets the verdict CRASH."""
     binp = os.path.join(HARNESS, 'target', 'debug', 'capture')
     args = [binp] + (['--code'] if code else []) + (['--strip'] if strip else [])
-    p = subprocess.run(args, input='\n----\n'.join(sources) + '\n', capture_output=True, text=True)
-    if p.returncode != 0:
-        raise RuntimeError('capture failed: ' + p.stderr[-2000:])
+
+    def attempt(srcs, timeout):
+        try:
+            p = subprocess.run(args, input='\n----\n'.join(srcs) + '\n', capture_output=True, text=True, timeout=timeout, preexec_fn=_limits)
+            return p.returncode, p.stdout
+        except subprocess.TimeoutExpired:
+            return -999, ''
+    rc, out = attempt(sources, 900)
+    if rc != 0:
+        # find the culprit(s): run in halves, then singly
+        res = [None] * len(sources)
+
+        def solve(lo, hi):
+            if lo >= hi:
+                return
+            rc, out = attempt(sources[lo:hi], 120 if hi - lo == 1 else 600)
+            if rc == 0:
+                for k, c in enumerate(_parse_capture(out, hi - lo)):
+                    res[lo + k] = c
+            elif hi - lo == 1:
+                c = Cap()
+                c.verdict = 'CRASH'
+                c.panic_msg = 'capture process died with status %s (abort / out of memory / timeout)' % rc
+                res[lo] = c
+            else:
+                mid = (lo + hi) // 2
+                solve(lo, mid)
+                solve(mid, hi)
+        solve(0, len(sources))
+        return res
+    return _parse_capture(out, len(sources))
+
+
+def _parse_capture(stdout, n):
+    class _P:
+        pass
+    p = _P()
+    p.stdout = stdout
+    sources = [None] * n
     caps = {}
     cur = None
     pending_strip = {}
